@@ -30,7 +30,9 @@ def main():
             shutil.copytree("/repo/src", os.path.join(d, "src"))
             shutil.copytree("/repo/tests", os.path.join(d, "tests"))
             shutil.copy(os.path.join(seed, "demo.py"), os.path.join(d, "demo.py"))
-        rc, out = run(["patch", "-p1", "-s", "-i", os.path.join(os.path.abspath(seed), "patch.diff")], mut)
+        pf = "patch_rebased.diff" if os.path.exists(os.path.join(seed, "patch_rebased.diff")) else "patch.diff"
+        res["patch_file"] = pf
+        rc, out = run(["patch", "-p1", "-s", "-i", os.path.join(os.path.abspath(seed), pf)], mut)
         if rc != 0:
             print("PATCH FAILED", out)
             return 2
